@@ -13,6 +13,8 @@ import (
 	"time"
 
 	goheader "github.com/celestiaorg/go-header"
+	ds "github.com/ipfs/go-datastore"
+	dssync "github.com/ipfs/go-datastore/sync"
 
 	"github.com/libp2p/go-libp2p/core/crypto"
 	cryptopb "github.com/libp2p/go-libp2p/core/crypto/pb"
@@ -21,6 +23,7 @@ import (
 	"verifharness/hx"
 
 	"github.com/evstack/ev-node/block"
+	evsync "github.com/evstack/ev-node/pkg/sync"
 	"github.com/evstack/ev-node/types"
 )
 
@@ -297,6 +300,63 @@ func Run(c *hx.Ctx) {
 			if verdict == "accepted" && hdr != nil {
 				w.checkStored(hdr)
 			}
+		case "p2pboot":
+			// the first header of the P2P header store of a node without a trusted hash: what a peer answers for the
+			// initial height goes through the exchange session's New + UnmarshalBinary + Validate and then through the
+			// service's own init path (initStoreAndStartSyncer -> the REAL go-header store's Init)
+			b := o.Bytes("blob")
+			w.note(b)
+			verdict := "panic"
+			var hdr *types.SignedHeader
+			func() {
+				defer func() {
+					if r := recover(); r != nil {
+						c.Report("C03/panic/p2p-library-entry", fmt.Sprint(r))
+					}
+				}()
+				hdr, verdict = libAdmit[*types.SignedHeader](nil, false, b)
+				if verdict != "accepted" {
+					return
+				}
+				stored, err := evsync.VerifBootstrap[*types.SignedHeader](context.Background(), dssync.MutexWrap(ds.NewMapDatastore()), w.env.Gen, hdr)
+				switch {
+				case stored && err == nil:
+					verdict = "stored"
+				case !stored && err != nil:
+					verdict = "rejected:genesis"
+				default:
+					verdict = fmt.Sprintf("inconsistent stored=%v err=%v", stored, err)
+				}
+			}()
+			c.Emit("p2pboot %s", verdict)
+			if verdict == "stored" {
+				if string(hdr.ProposerAddress) != string(w.env.Gen.ProposerAddress) {
+					c.Report("C03/p2p-store/seeded-with-header-of-foreign-proposer", fmt.Sprintf("height %d hash %s", hdr.Height(), short(hdr.Hash())))
+				} else {
+					w.checkStored(hdr)
+				}
+			}
+		case "p2plibdat":
+			// a data item received over gossip / in an exchange session of the data sync service
+			b := o.Bytes("blob")
+			var trusted *types.Data
+			if t := o.Str("trusted"); t != "" && t != "-" {
+				trusted = new(types.Data)
+				if err := trusted.UnmarshalBinary(o.Bytes("trusted")); err != nil || trusted.Metadata == nil {
+					c.Emit("bad-trusted")
+					continue
+				}
+			}
+			verdict := "panic"
+			func() {
+				defer func() {
+					if r := recover(); r != nil {
+						c.Report("C03/panic/p2p-library-entry-data", fmt.Sprint(r))
+					}
+				}()
+				_, verdict = libAdmit[*types.Data](trusted, trusted != nil, b)
+			}()
+			c.Emit("p2plibdat %s", verdict)
 		case "place":
 			da, _ := o.U64("da")
 			b := o.Bytes("blob")
@@ -340,6 +400,7 @@ func Run(c *hx.Ctx) {
 			da, _ := o.U64("da")
 			n := o.Int("n")
 			b := o.Bytes("blob")
+			w.note(b)
 			for i := 0; i < n; i++ {
 				w.da.Place(da, b)
 			}
@@ -427,6 +488,8 @@ func libAdmit[H goheader.Header[H]](trusted H, hasTrusted bool, data []byte) (H,
 	if err := hdr.Validate(); err != nil {
 		return hdr, "rejected:validate"
 	}
+	// what the library reads from every validated item (logging, height bookkeeping, store keys)
+	_, _, _, _ = hdr.Height(), hdr.ChainID(), hdr.Time(), hdr.Hash()
 	if hasTrusted {
 		if err := goheader.Verify(trusted, hdr); err != nil {
 			return hdr, "rejected:verify"
@@ -641,8 +704,16 @@ func (w *World) checkAdmission(hs []block.NewHeaderEvent, ds []block.NewDataEven
 			c.Report("C03/da-header/accepted-without-valid-proposer-signature", fmt.Sprintf("height %d", sh.Height()))
 		}
 	}
+	// data events carry no signer: an event is legitimate only if a blob with that commitment, really signed with the
+	// proposer's key, was given to the node (same rule as for the marks below)
 	for _, e := range ds {
-		_ = e // data events carry no signer; the signed blob is checked below through the marks
+		if e.Data == nil {
+			c.Report("C03/da-data/nil-data-handed-to-sync", "")
+			continue
+		}
+		if sig := w.dataCause(e.Data.DACommitment().String()); sig != "" {
+			c.Report(strings.Replace(sig, "marked-da-included", "handed-to-sync", 1), fmt.Sprintf("event: height %d", dHeight(e.Data)))
+		}
 	}
 	// a header is marked DA-included only on the strength of a blob really signed with the proposer's key (decided
 	// here with the harness's own comparison of keys and the real ed25519 verification, not with the code under test)
@@ -668,33 +739,32 @@ func (w *World) checkAdmission(hs []block.NewHeaderEvent, ds []block.NewDataEven
 			c.Report("C03/da-header/marked-da-included-without-a-validly-signed-blob", "header hash "+h)
 		}
 	}
-	// marks: every data mark must belong to a blob signed by the proposer; the cause is classified per commitment
-	// from the blobs carrying it (a different violation gets a different signature)
+	// marks: EVERY data mark must belong to a blob signed by the proposer that the node was given (through the DA
+	// double or directly through the handler); the cause is classified per commitment
 	dm := w.env.M.DataCache().VerifDAIncluded()
-	type cause struct {
-		genuine, foreignKey, foreignAddr bool
-		height                           uint64
+	for _, k := range hx.SortedKeys(dm) {
+		if sig := w.dataCause(k); sig != "" {
+			c.Report(sig, "mark: commitment "+short([]byte(k)))
+		}
 	}
-	byCommit := map[string]*cause{}
-	var order []string
-	for _, p := range w.placed {
+}
+
+// dataCause: "" if a signed-data blob with this commitment, really signed with the proposer's key (harness's own key
+// comparison + real ed25519 verification), is among the blobs the node was given; otherwise the violation's signature
+// according to what WAS given (a different cause gets a different signature).
+func (w *World) dataCause(commit string) string {
+	pub := w.env.Pub
+	foreignKey, foreignAddr := false, false
+	for _, b := range w.placedAndGiven {
 		var sd types.SignedData
-		if err := sd.UnmarshalBinary(p.blob); err != nil || len(sd.Txs) == 0 || sd.Signer.PubKey == nil {
+		if err := sd.UnmarshalBinary(b); err != nil || sd.Signer.PubKey == nil {
 			continue
 		}
-		k := sd.Data.DACommitment().String()
-		if _, ok := dm[k]; !ok {
+		if !strings.EqualFold(sd.Data.DACommitment().String(), commit) {
 			continue
-		}
-		cs := byCommit[k]
-		if cs == nil {
-			cs = &cause{height: dHeight(&sd.Data)}
-			byCommit[k] = cs
-			order = append(order, k)
 		}
 		if genuineData(pub, &sd) {
-			cs.genuine = true
-			continue
+			return ""
 		}
 		selfOK := false
 		if pl, err := sd.Data.MarshalBinary(); err == nil {
@@ -704,23 +774,18 @@ func (w *World) checkAdmission(hs []block.NewHeaderEvent, ds []block.NewDataEven
 			continue
 		}
 		if string(sd.Signer.Address) == string(w.env.Gen.ProposerAddress) {
-			cs.foreignKey = true
+			foreignKey = true
 		} else {
-			cs.foreignAddr = true
+			foreignAddr = true
 		}
 	}
-	for _, k := range order {
-		cs := byCommit[k]
-		switch {
-		case cs.genuine:
-		case cs.foreignKey:
-			c.Report("C03/da-data/accepted-under-proposer-address-with-foreign-key", fmt.Sprintf("height %d", cs.height))
-		case cs.foreignAddr:
-			c.Report("C03/data/accepted-with-foreign-signer-address", fmt.Sprintf("height %d", cs.height))
-		default:
-			c.Report("C03/da-data/marked-da-included-without-a-validly-signed-blob", fmt.Sprintf("height %d", cs.height))
-		}
+	switch {
+	case foreignKey:
+		return "C03/da-data/accepted-under-proposer-address-with-foreign-key"
+	case foreignAddr:
+		return "C03/data/accepted-with-foreign-signer-address"
 	}
+	return "C03/da-data/marked-da-included-without-a-validly-signed-blob"
 }
 
 func genuineData(pub crypto.PubKey, sd *types.SignedData) bool {
